@@ -88,6 +88,9 @@ P_NamesProgram.vos P_NamesProgram.vok P_NamesProgram.required_vos: P_NamesProgra
 P_OpVisit.vo P_OpVisit.glob P_OpVisit.v.beautified P_OpVisit.required_vo: P_OpVisit.v Ast.vo Generated.vo Config.vo Model.vo
 P_OpVisit.vio: P_OpVisit.v Ast.vio Generated.vio Config.vio Model.vio
 P_OpVisit.vos P_OpVisit.vok P_OpVisit.required_vos: P_OpVisit.v Ast.vos Generated.vos Config.vos Model.vos
+P_OptCall.vo P_OptCall.glob P_OptCall.v.beautified P_OptCall.required_vo: P_OptCall.v Ast.vo Generated.vo Config.vo Model.vo P_Local.vo
+P_OptCall.vio: P_OptCall.v Ast.vio Generated.vio Config.vio Model.vio P_Local.vio
+P_OptCall.vos P_OptCall.vok P_OptCall.required_vos: P_OptCall.v Ast.vos Generated.vos Config.vos Model.vos P_Local.vos
 P_Partial.vo P_Partial.glob P_Partial.v.beautified P_Partial.required_vo: P_Partial.v Ast.vo Generated.vo Config.vo Model.vo Partial.vo
 P_Partial.vio: P_Partial.v Ast.vio Generated.vio Config.vio Model.vio Partial.vio
 P_Partial.vos P_Partial.vok P_Partial.required_vos: P_Partial.v Ast.vos Generated.vos Config.vos Model.vos Partial.vos
@@ -130,9 +133,9 @@ ToConfig.vos ToConfig.vok ToConfig.required_vos: ToConfig.v Ast.vos Generated.vo
 WfTree.vo WfTree.glob WfTree.v.beautified WfTree.required_vo: WfTree.v Ast.vo Generated.vo
 WfTree.vio: WfTree.v Ast.vio Generated.vio
 WfTree.vos WfTree.vok WfTree.required_vos: WfTree.v Ast.vos Generated.vos
-Properties/C01.vo Properties/C01.glob Properties/C01.v.beautified Properties/C01.required_vo: Properties/C01.v Ast.vo Generated.vo Config.vo Model.vo HookSites.vo Erase.vo Order.vo P_Local.vo P_Hooks.vo Sem.vo P_Sem.vo
-Properties/C01.vio: Properties/C01.v Ast.vio Generated.vio Config.vio Model.vio HookSites.vio Erase.vio Order.vio P_Local.vio P_Hooks.vio Sem.vio P_Sem.vio
-Properties/C01.vos Properties/C01.vok Properties/C01.required_vos: Properties/C01.v Ast.vos Generated.vos Config.vos Model.vos HookSites.vos Erase.vos Order.vos P_Local.vos P_Hooks.vos Sem.vos P_Sem.vos
+Properties/C01.vo Properties/C01.glob Properties/C01.v.beautified Properties/C01.required_vo: Properties/C01.v Ast.vo Generated.vo Config.vo Model.vo HookSites.vo Erase.vo Order.vo P_Local.vo P_Hooks.vo Sem.vo P_Sem.vo P_OptCall.vo
+Properties/C01.vio: Properties/C01.v Ast.vio Generated.vio Config.vio Model.vio HookSites.vio Erase.vio Order.vio P_Local.vio P_Hooks.vio Sem.vio P_Sem.vio P_OptCall.vio
+Properties/C01.vos Properties/C01.vok Properties/C01.required_vos: Properties/C01.v Ast.vos Generated.vos Config.vos Model.vos HookSites.vos Erase.vos Order.vos P_Local.vos P_Hooks.vos Sem.vos P_Sem.vos P_OptCall.vos
 Properties/C02.vo Properties/C02.glob Properties/C02.v.beautified Properties/C02.required_vo: Properties/C02.v Ast.vo Generated.vo Config.vo Model.vo HookSites.vo Erase.vo P_Hooks.vo P_Erase.vo
 Properties/C02.vio: Properties/C02.v Ast.vio Generated.vio Config.vio Model.vio HookSites.vio Erase.vio P_Hooks.vio P_Erase.vio
 Properties/C02.vos Properties/C02.vok Properties/C02.required_vos: Properties/C02.v Ast.vos Generated.vos Config.vos Model.vos HookSites.vos Erase.vos P_Hooks.vos P_Erase.vos
